@@ -24,6 +24,9 @@ CLAIMS = {
  "C07": (TECH2,
          "Relation kernels of 30 assertion classes decided by CrossHair over unbounded symbolic operands (doubles, ints, strings, lists, mixed scalars); the float tolerance decided for all reals by z3 on the AST translation of equality_test and on an IEEE grid; the public calls with every raw/proxy combination, error operands, presentation keywords and unit_test() decided over small grids. NaN, regex/output/type assertions are outside the claim; relations that raise are a recorded known finding.",
          "mixed int/float arithmetic over the reals (E2) + concrete IEEE grid; proxied calls run untraced on concrete values; harness oracles", "DESIGN.md §3 C07"),
+ "C08": (TECH2,
+         "Threshold logic decided for all non-negative integers by z3 on the AST translation of both _check_usage methods; the symbol tables compared with CPython's parser as z3 functions over the finite symbol sort; the real find_* helpers and ensure_*/prevent_* classes decided by CrossHair over programs with symbolic identifier / constant leaves and over operator / statement menus (incl. chained comparisons and nesting), against a plain walk of CPython's tree.",
+         "program shapes come from a fixed family; queried names/literals from menus (they are formatted / rendered); CrossHair/z3 models", "DESIGN.md §3 C08"),
  "C12": (TECH,
          "With the parser replaced by a stub raising error objects whose position attributes are symbolic within the shapes harvested from CPython on every run, CrossHair confirms over all paths (files <= 3 lines, section offsets <= 2, 3 exception classes) that verify never raises, reports exactly one syntax feedback on CPython's line shifted by the section offset, and stores the parser's tree on acceptance. The parser's own accept/reject decision is CPython's and is not re-verified.",
          "parser stub constrained to harvested shapes; CrossHair/z3 models; harness oracle", "DESIGN.md §3 C12"),
